@@ -57,15 +57,21 @@ def check_split(case, ctx):
     pdim = len(d["degree"])
     k = case["dir"]
     kvs, szs = build.kvs_of(obj), build.sizes_of(obj)
-    u, kind = build.resolve_param(d["degree"][k], kvs[k], szs[k], case["where"], others=[o for j, o in enumerate(kvs) if j != k])
+    where = case["where"]
+    if where[0] == "near":
+        # splitting inserts knots: stay 2^-18 away from existing knots (the library identifies knots closer than 1e-7)
+        where = list(where[:4]) + [2.0 ** -18]
+    u, kind = build.resolve_param(d["degree"][k], kvs[k], szs[k], where, others=[o for j, o in enumerate(kvs) if j != k])
     ctx.label("param-is-knot-of-other-direction", case["where"][0] == "other" and pdim > 1)
     if case["read"]:
         obj.delta = 0.25
         _ = obj.evalpts
     before = build.snapshot(obj)
+    views_before = ([list(p) for p in obj.ctrlpts], list(obj.weights) if obj.rational else None)
     dom = R.domain()
     ctx.label("kind:" + d["kind"])
     ctx.label("affine", bool(d.get("affine")))
+    ctx.label("param-near-knot", kind == "near")
     if kind in ("start", "end"):
         ctx.nt(True, "split-at-domain-end")
         raised = False
@@ -84,6 +90,8 @@ def check_split(case, ctx):
     pieces = _split(obj, k, u)
     ctx.check(len(pieces) == 2, "piece-count", "split returned %d pieces" % len(pieces))
     ctx.check(build.snapshot(obj) == before, "input-modified", "split modified its input")
+    views_after = ([list(p) for p in obj.ctrlpts], list(obj.weights) if obj.rational else None)
+    ctx.check(views_after == views_before, "input-modified", "after the split the input reports other control points / weights (%d points, before %d)" % (len(views_after[0]), len(views_before[0])))
     for i, pc in enumerate(pieces):
         ctx.check(pc is not obj, "piece-is-input", "split returned the input object")
         ctx.check(bool(pc.rational) == d["rational"], "rationality", "piece %d rational=%r" % (i, pc.rational))
@@ -113,6 +121,7 @@ def check_decompose(case, ctx):
     R = build.exact_from(d, obj)
     pdim = len(d["degree"])
     before = build.snapshot(obj)
+    views_before = ([list(p) for p in obj.ctrlpts], list(obj.weights) if obj.rational else None)
     kvs, szs = build.kvs_of(obj), build.sizes_of(obj)
     ivs = [_intervals(p, kv, n) for p, kv, n in zip(d["degree"], kvs, szs)]
     ctx.label("kind:" + d["kind"])
@@ -136,6 +145,8 @@ def check_decompose(case, ctx):
     ctx.nt(len(boxes) >= 3, ">=3-pieces")
     ctx.label("dir:" + dirs)
     ctx.check(build.snapshot(obj) == before, "input-modified", "decomposition modified its input")
+    ctx.check(([list(p) for p in obj.ctrlpts], list(obj.weights) if obj.rational else None) == views_before, "input-modified",
+              "after the decomposition the input reports other control points / weights")
     ctx.check(len(pieces) == len(boxes), "piece-count",
               "decompose(%s) returned %d pieces, the knot vectors have %d non-empty intervals (kv %r)" % (dirs, len(pieces), len(boxes), kvs))
     for i, (pc, box) in enumerate(zip(pieces, boxes)):
